@@ -420,6 +420,14 @@ def gate_hint(ctx):
             exits.append(hs[-1][1])
             ok = all(_total_on_nonempty(f, x) for x in exits)
             e = ("exits", tuple(exits))
+    if not ok:
+        # expression shape not recognised: fold the function on the full, the default, a custom and a one-element list (Some of the
+        # specified size for every input length) and on the empty list (None)
+        from . import p_symbols
+        okx, detx = p_symbols.filter_exec(ctx).get("upper_limit", (None, "not folded"))
+        if okx:
+            ok = True
+            e = ("folded", detx)
     obs.append(Ob(r, "hint-total", ok,
                   "SymbolList::upper_limit_for_number_of_codewords returns Some for every non-empty list on every branch (it is only a reservation hint; its None is mapped to SymbolListEmpty)",
                   site=T.span_str(f.thir[fn]["span"]), detail=T.sx_show(e, 400)))
